@@ -26,9 +26,44 @@ DEREFS = ("<std::sync::poison::mutex::MutexGuard<'_, T> as core::ops::deref::Der
           "<std::sync::poison::mutex::MutexGuard<'_, T> as core::ops::deref::DerefMut>::deref_mut")
 
 
-def flag_writes(prog, crate="minijinja_autoreload", field="should_reload", adt=IMPL):
-    """[(fn, bb, value)] for every assignment to NotifierImpl.should_reload; value 0/1/None"""
+_FLAG = {}
+
+
+def flag_field(prog, adt=IMPL, crate="minijinja_autoreload"):
+    """the name of the reload flag, found by role: the bool field of NotifierImpl that the public `request_reload`
+    (or a function of the crate it calls) sets to `true`.  A renamed field is still the flag."""
+    if id(prog) in _FLAG:
+        return _FLAG[id(prog)]
+    a = prog.adts.get(adt)
+    bools = [fl["name"] for v in (a or {}).get("variants", []) for fl in v["fields"] if fl["ty"].get("prim") == "bool"]
+    seen, work = set(), [REQ]
+    for _ in range(3):
+        nxt = []
+        for path in work:
+            f = prog.fns.get(path)
+            if f is None or path in seen:
+                continue
+            seen.add(path)
+            nxt += [c.resolved or c.path for c in f.calls() if (c.resolved or c.path or "").startswith(crate + "::")]
+        work = nxt
+    hits = []
+    for path in sorted(seen):
+        f = prog.fns[path]
+        for bb, i, st in f.all_stmts():
+            pr = st.get("place", {}).get("p", []) if st["k"] == "assign" else []
+            if pr and isinstance(pr[-1], dict) and pr[-1].get("of") == adt and pr[-1].get("n") in bools and \
+                    st["rv"]["k"] == "use" and const_int(st["rv"]["op"]) == 1:
+                hits.append(pr[-1]["n"])
+    name = hits[0] if hits and len(set(hits)) == 1 else "should_reload"
+    _FLAG[id(prog)] = name
+    return name
+
+
+def flag_writes(prog, crate="minijinja_autoreload", field=None, adt=IMPL):
+    """[(fn, bb, value)] for every assignment to the reload flag of NotifierImpl; value 0/1/None"""
     out = []
+    if field is None:
+        field = flag_field(prog) if adt == IMPL else "should_reload"
     for f in prog.fns.values():
         if f.crate != crate:
             continue
